@@ -140,6 +140,9 @@ func genC04(r *Rand, tier string) *Case {
 		c.Server.TLS = "empty"
 	}
 	kind := r.Intn(10)
+	if r.Chance(1, 500) {
+		return c04CopyRows(int64(r.PickInt(50000, 120000)), r.PickInt(4096, 65536))
+	}
 	if r.Chance(1, 400) {
 		return c04Churn(r, r.PickInt(70, 130, 260, 1100), r.Pick("cancel", "ssl-cancel", "junk", "eof", "cut-startup", "mixed"))
 	}
@@ -476,8 +479,31 @@ func c04Churn(r *Rand, n int, kind string) *Case {
 	return withBystander(c)
 }
 
+// c04CopyRows: a long binary COPY stream (n identical rows) read through the
+// library's row reader, cut into CopyData messages whose boundaries never
+// coincide with a row boundary: the reader may hold what it has not consumed,
+// not the whole stream.
+func c04CopyRows(n int64, limit int) *Case {
+	c := &Case{Variant: "flood-copy-rows", Server: ServerCfg{Limit: limit}, Programs: map[string]*Program{}}
+	cols := []ColSpec{{Name: "id", OID: pgwire.OIDInt4}, {Name: "v", OID: pgwire.OIDText}}
+	c.Programs["cp"] = &Program{Stmts: []*StmtProg{{Cols: cols, Ops: []Op{{K: "copyin", Fmt: 1}, {K: "binrows", Quiet: true}, {K: "finishcopy", Tag: "COPY"}}}}}
+	row := [][]byte{{0, 0, 0, 7}, []byte(strings.Repeat("payload-", 25))}
+	one := pgwire.EncodeBinaryCopyExt([][][]byte{row}, true, nil) // header, one row, trailer
+	hdr, trailer := one[:19], one[len(one)-2:]
+	rb := one[19 : len(one)-2]
+	rot := append(append([]byte{}, rb[len(rb)-1:]...), rb[:len(rb)-1]...)
+	msgs := []pgwire.FMsg{{K: "Q", S1: "cp"},
+		{K: "d", Data: append(append([]byte{}, hdr...), rb[:len(rb)-1]...)},
+		{K: "flood", T: 'd', Data: rot, Rep: n - 1},
+		{K: "d", Data: append(append([]byte{}, rb[len(rb)-1:]...), trailer...)},
+		{K: "c"}}
+	c.Conns = []ConnCase{{Steps: []Step{{Msgs: []pgwire.FMsg{startupMsg("u", "d")}}, {Msgs: msgs}, {Msgs: []pgwire.FMsg{{K: "X"}}}}, MeasureLive: true}}
+	return withBystander(c)
+}
+
 func c04Fixed(tier string) []*Case {
 	out := c04Corpus()
+	out = append(out, c04CopyRows(80000, 65536))
 	for _, kind := range []string{"cancel", "ssl-cancel", "junk", "eof", "cut-startup", "mixed"} {
 		out = append(out, c04Churn(NewRand(4242), 300, kind))
 	}
